@@ -60,6 +60,8 @@ def _specials():
         ("if", v("x1"), ("quot", ("c", 1), v("x1")), ("c", 0)), ("if", v("x1"), ("c", 7), UNB), ("if", v("x1"), UNB, ("c", 7)),
         ("if", ("sum2", v("x1"), v("x2")), ("floordiv", v("x3"), ("sum2", v("x1"), v("x2"))), v("x3")),
         ("if", ("c", 0), UNB, v("x1")), ("if", ("c", 2), v("x1"), UNB), ("if", ("c", 0.0), ("quot", v("x1"), ("c", 0)), v("x1")),
+        # n-ary nodes with a single operand
+        ("min1", v("x1")), ("max1", v("x1")), ("sum2", ("min1", ("sum2", v("x1"), v("x2"))), ("max1", v("x3"))), ("min2", ("max1", v("x1")), v("x2")),
         # wrappers of every scope (evaluated twice in different environments, see _warm)
         ("cse_glob", ("sum2", v("x1"), v("x2"))), ("sum2", ("cse_glob", ("prod2", v("x1"), v("x2"))), ("cse_glob", ("prod2", v("x1"), v("x2")))),
         ("prod2", ("cse_glob", ("call1", v("f1", "fn"), v("x1"))), v("x2")), ("sum2", ("cse_pfx", ("sum2", v("x1"), ("c", 1))), ("cse_glob", v("x1"))),
